@@ -248,10 +248,26 @@ class Engine(ExprMixin, StmtMixin):
     def is_subclass(self, clsid, other):
         return other in self.mro(clsid)
 
+    def class_attr(self, clsid, attr):
+        """value of a class-level assignment `attr = <expr>` found along the MRO (evaluated in that class's module)"""
+        for c in self.mro(clsid):
+            if "::" not in c:
+                continue
+            m, cd = self.class_def(c)
+            for n in cd.body:
+                if isinstance(n, ast.Assign) and any(isinstance(t, ast.Name) and t.id == attr for t in n.targets):
+                    saved = self.cur_fi
+                    self.cur_fi = FuncInfo(ast.parse("def _f(): pass").body[0], m, cd.name)
+                    try:
+                        return self.ev1_plain(n.value)
+                    finally:
+                        self.cur_fi = saved
+        return None
+
     def bound_method(self, ref, h, attr, st):
         r = self.find_method(h.cls, attr)
         if r is None:
-            return None
+            return self.class_attr(h.cls, attr)
         kind, target, owner = r
         if kind == "lib":
             self.used_trusted.add(f"lib:{owner}.{attr}")
